@@ -325,7 +325,7 @@ def encode(h, gaps=None, gap_rec=0, vsize_mode="exact", junk=0xA5, hdr_pad=0):
       gaps[i]   extra bytes before fixed variable i (multiple of 4)
       gap_rec   extra bytes between the fixed section and the record section
       hdr_pad   extra bytes between the header and the first variable
-      vsize_mode exact | stale (an unrelated number) | sat (0xFFFFFFFF; CDF-1/2 only)
+      vsize_mode exact | stale (an unrelated number) | unpadded | sat (0xFFFFFFFF; CDF-1/2 only)
       junk      byte value used for every byte not defined by the content
     Returns (bytes, begins)."""
     fmt = h["fmt"]
@@ -365,6 +365,8 @@ def encode(h, gaps=None, gap_rec=0, vsize_mode="exact", junk=0xA5, hdr_pad=0):
             vsizes.append(min(v["len"], (1 << 32) - 1) if fmt != 5 else v["len"])
         elif vsize_mode == "stale":
             vsizes.append(v["len"] + 8)
+        elif vsize_mode == "unpadded":      # the byte count without the padding to a multiple of 4
+            vsizes.append(v["nelems_per_rec"] * v["elsz"])
         else:
             vsizes.append((1 << 32) - 1 if fmt != 5 else v["len"])
     hdr = encode_header(h, begins, vsizes)
